@@ -1637,7 +1637,9 @@ class AbstractUnit:
                 else:
                     raise ValueError("undefined outlet; must pass outlet when outlets are fixed and multiple are available")
             else:
-                self.outs.append(stream)
+                # `stream` itself becomes the new outlet; it is appended at the
+                # end, once its old source has let go of it (replacing it at the
+                # old source undocks it).
                 added_unit = True
         else:
             if isinstance(outlet, AbstractStream):
@@ -1661,6 +1663,7 @@ class AbstractUnit:
             else:
                 inlet = self.outs[inlet]
             source.outs.replace(stream, inlet)
+        if added_unit: self.outs.append(stream)
     
     @ignore_docking_warnings
     def take_place_of(self, other, discard=False):
